@@ -21,6 +21,8 @@ type desc struct {
 	API    string        `json:"api"`
 	ASends bool          `json:"a_sends"`
 	Fault  string        `json:"fault"`
+	ReadOn bool          `json:"read_on,omitempty"` // frame-level reads continue after failures
+	Toggle bool          `json:"toggle,omitempty"`  // both ends switch encryption off and on again after the warm-up
 }
 
 func honest(n int) []ss.EditItem {
@@ -69,13 +71,22 @@ func build(d *desc) *ss.Case {
 		}
 		c.Steps = append(c.Steps, st)
 	}
-	st := ss.Step{Kind: "phase", ASends: d.ASends, HasEdit: true, Edit: d.Edit, NoWire: d.Fault != "none"}
+	if d.Toggle {
+		c.Steps = append(c.Steps, ss.Step{Kind: "crypto", WhoA: true, On: false}, ss.Step{Kind: "crypto", WhoA: false, On: false},
+			ss.Step{Kind: "crypto", WhoA: true, On: true}, ss.Step{Kind: "crypto", WhoA: false, On: true})
+	}
+	st := ss.Step{Kind: "phase", ASends: d.ASends, HasEdit: true, Edit: d.Edit, NoWire: d.Fault != "none", ReadOn: d.ReadOn}
 	for _, m := range d.Msgs {
 		st.SOps = append(st.SOps, m.SOps()...)
 		st.ROps = append(st.ROps, ss.ROpsFor(d.API, len(m.Bytes()), 1000)...)
 	}
 	// one more read than messages sent: nothing extra may ever be delivered
 	st.ROps = append(st.ROps, ss.ROpsFor(d.API, 1, 1000)...)
+	if d.ReadOn { // one read per frame of the edited stream, and one more
+		for len(st.ROps) < len(d.Edit)+1 {
+			st.ROps = append(st.ROps, ss.ROpsFor(d.API, 1, 1000)...)
+		}
+	}
 	c.Steps = append(c.Steps, st)
 	return c
 }
@@ -91,6 +102,25 @@ func check(d *desc, obs *ss.Obs) error {
 		if e {
 			return fmt.Errorf("honest sender refused")
 		}
+	}
+	if d.ReadOn {
+		// frame-level reads that go on after failures: whatever is accepted, before or after an
+		// error, must still be the sender's frames in order with none skipped
+		var got [][]byte
+		for _, r := range po.RRes {
+			if r.OK {
+				got = append(got, r.Data)
+			}
+		}
+		for i, g := range got {
+			if i >= len(d.Msgs) {
+				return fmt.Errorf("fault %q: reading on after errors, the receiver accepted %d frames, only %d were sent", d.Fault, len(got), len(d.Msgs))
+			}
+			if !bytes.Equal(g, d.Msgs[i].Bytes()) {
+				return fmt.Errorf("fault %q: reading on after errors, accepted frame %d (%d bytes) is not the sender's frame %d (%d bytes): data skipped, repeated or altered", d.Fault, i, len(g), i, len(d.Msgs[i].Bytes()))
+			}
+		}
+		return nil
 	}
 	// group receive results into messages
 	var delivered [][]byte
@@ -206,7 +236,11 @@ func gen(c *core.Ctx) error {
 	for ti, tr := range transcripts {
 		heavy := len(tr[0].Bytes()) > 10000 // a large transcript gets the quick tier's fault strides even in thorough
 		for si, su := range setups {
-			for wi, warm := range []bool{false, true, true} {
+			for wi, warm := range []bool{false, true, true, true} {
+				toggle := wi == 3 // after the warm-up both ends switch encryption off and on again: counters must go on
+				if toggle && !(ti == 0 || (!c.Quick() && ti == 1)) {
+					continue
+				}
 				if c.Quick() && (ti+si)%2 == 1 && warm && wi == 1 {
 					continue
 				}
@@ -234,7 +268,14 @@ func gen(c *core.Ctx) error {
 					if tr[0].Kind == "file" {
 						api = "getfile"
 					}
-					return &desc{Setup: su, Warm: w, Msgs: tr, Edit: edit, API: api, ASends: aSends, Fault: fault}
+					readOn := false
+					if ti == 0 && (api == "frame" || api == "framewe") && (k/6)%2 == 0 {
+						switch faultClass(fault) { // faults that keep the framing intact
+						case "none", "flip body", "drop", "duplicate", "swap", "replay", "replace", "insert forged", "reflect", "insert own":
+							readOn = true
+						}
+					}
+					return &desc{Setup: su, Warm: w, Msgs: tr, Edit: edit, API: api, ASends: aSends, Fault: fault, ReadOn: readOn, Toggle: toggle}
 				}
 				idx := func(j int) ss.EditItem { return ss.EditItem{Kind: "gen", J: base + j, Flag: -1} }
 				full := func() []ss.EditItem {
@@ -282,6 +323,17 @@ func gen(c *core.Ctx) error {
 					for p := j + 2; p <= n; p++ {
 						e = append(append(append([]ss.EditItem{}, full()[:p]...), idx(j)), full()[p:]...)
 						try(mk(fmt.Sprintf("replay frame %d at %d", j, p), e))
+					}
+					// a warm-up frame (consumed before the transcript, and before the off/on toggle if any) inserted
+					if warm && (j == 0 || j == n-1) {
+						for wj := 0; wj < base; wj++ {
+							p := j
+							if j == n-1 {
+								p = n
+							}
+							e = append(append(append([]ss.EditItem{}, full()[:p]...), ss.EditItem{Kind: "gen", J: wj, Flag: -1}), full()[p:]...)
+							try(mk(fmt.Sprintf("replay warm-up frame %d at %d", wj, p), e))
+						}
 					}
 					// replay a warm-up frame (already consumed) in place
 					if warm {
